@@ -1,1 +1,65 @@
-From DV Require Import Prelude.Base Model.Wire.
+(* C02 — message codec is byte-exact; class dispatch and AVP search are correct.
+   Statements only.  The registry-wide ("every registered command code") parts are the
+   table obligations of Link/LinkRegistry.v. *)
+From DV Require Import Prelude.Base Spec.Rfc6733 Spec.MsgSpec Model.Wire Model.Msg Proofs.WireP Proofs.MsgP.
+From Coq Require Import String.
+
+(* the 20-byte header is exactly version(8) length(24) flags(8) code(24) app(32) hbh(32) e2e(32) *)
+Theorem C02_hdr_is_rfc : forall h, wf_hdr h ->
+  enc_hdr h = Ok (rfc_hdr (h_version h) (h_length h) (h_flags h) (h_code h) (h_app h) (h_hbh h) (h_e2e h)).
+Proof. exact enc_hdr_is_rfc. Qed.
+Theorem C02_hdr_length : forall h bs, enc_hdr h = Ok bs -> blen bs = 20.
+Proof. exact enc_hdr_length. Qed.
+
+(* both directions, for all 8/24/32-bit field values *)
+Theorem C02_hdr_dec_enc : forall h bs rest, wf_hdr h -> enc_hdr h = Ok bs -> dec_hdr (bs ++ rest) = Ok (h, rest).
+Proof. exact dec_enc_hdr. Qed.
+Theorem C02_hdr_enc_dec : forall bs h rest, wf_bytes bs -> dec_hdr bs = Ok (h, rest) ->
+  wf_hdr h /\ exists pre, enc_hdr h = Ok pre /\ pre ++ rest = bs.
+Proof. exact enc_dec_hdr. Qed.
+
+(* the length field equals the total byte count (for every message that fits the 24-bit field) *)
+Theorem C02_length_field : forall h l bs, wf_hdr h -> Forall wf_avp l -> enc_msg h l = Ok bs ->
+  blen bs < 16777216 -> exists h' r, dec_hdr bs = Ok (h', r) /\ h_length h' = blen bs.
+Proof. exact enc_msg_length_field_partial. Qed.
+
+(* generic decode of an encoded message: same header (with the recomputed length), same AVP
+   sequence -- order, codes, vendors, flags, payloads; any number of AVPs *)
+Theorem C02_dec_enc_msg : forall h l bs, wf_hdr h -> Forall wf_avp l -> enc_msg h l = Ok bs ->
+  blen bs < 16777216 -> dec_msg bs = Ok (set_length h (blen bs), l).
+Proof. exact dec_enc_msg_partial. Qed.
+
+(* lists of AVPs of any length *)
+Theorem C02_dec_enc_avps : forall l bs, Forall wf_avp' l -> enc_avps l = Ok bs -> dec_avps bs = Ok l.
+Proof. exact dec_enc_avps'. Qed.
+
+(* the decoded header keeps the received flags whatever class is instantiated *)
+Theorem C02_decoded_flags : forall classes cname h, h_flags (decoded_header classes cname h) = h_flags h.
+Proof. exact decoded_header_flags. Qed.
+
+(* class dispatch, for ANY registry (so run-time registrations are covered): an unknown command
+   code gives the generic class; a known one the class its registry row names for the R bit
+   (the registered base class for a plain decode) *)
+Theorem C02_dispatch : forall reg plain code flags,
+  (class_of reg plain code flags = "UndefinedMessage"%string /\
+   forall c b r a, In (c, b, r, a) reg -> c <> code) \/
+  (exists b r a, In (code, b, r, a) reg /\
+   class_of reg plain code flags = if plain then b else if Z.land flags 128 =? 0 then a else r).
+Proof.
+  intros reg plain code flags. unfold class_of.
+  match goal with |- context [find ?f reg] => destruct (find f reg) as [[[[c b] r] a]|] eqn:E end.
+  - right. apply find_some in E as [Hin Hc]. apply Z.eqb_eq in Hc. subst c.
+    exists b, r, a. split; [exact Hin|reflexivity].
+  - left. split; [reflexivity|]. intros c b r a Hin Hc.
+    pose proof (find_none _ _ E _ Hin) as Hn. cbn in Hn. apply Z.eqb_neq in Hn. contradiction.
+Qed.
+
+Print Assumptions C02_hdr_is_rfc.
+Print Assumptions C02_hdr_length.
+Print Assumptions C02_hdr_dec_enc.
+Print Assumptions C02_hdr_enc_dec.
+Print Assumptions C02_length_field.
+Print Assumptions C02_dec_enc_msg.
+Print Assumptions C02_dec_enc_avps.
+Print Assumptions C02_decoded_flags.
+Print Assumptions C02_dispatch.
